@@ -365,7 +365,8 @@ Definition table_preserved (rs : list (res_pb nt_pb)) (d : table) : bool :=
     - verdict agrees: no panic, and error exactly when the model decodes to an error
     - content agrees: when the implementation accepted, its result map equals the model's
     - C13 spec: no panic; error <-> some resource unacceptable
-    - C11/C12 spec: when the implementation accepted, every field is preserved *)
+    - C11/C12 spec: when the implementation accepted, every field is preserved; a message
+      that is acceptable must have been accepted (otherwise nothing was preserved) *)
 Definition verdict_agrees {A R} (model_err : bool) (k : resp_case A R) : bool :=
   negb (rc_panic k) && Bool.eqb (rc_err k) model_err.
 Definition content_agrees {A R} (dec : forall a b : R, {a = b} + {a <> b})
@@ -384,7 +385,7 @@ Definition lds_check (k : resp_case listener_pb lisres) : bool * bool * bool * b
    total_spec (all_ok listener_ok (rc_resources k)) k,
    match rc_decoded k with
    | Some d => resources_preserved l_name (listener_preserved o) (rc_resources k) d
-   | None => true
+   | None => negb (all_ok listener_ok (rc_resources k))
    end).
 
 Definition rds_check (k : resp_case rc_pb rcres) : bool * bool * bool * bool :=
@@ -394,7 +395,7 @@ Definition rds_check (k : resp_case rc_pb rcres) : bool * bool * bool * bool :=
    total_spec (all_ok rc_ok (rc_resources k)) k,
    match rc_decoded k with
    | Some d => resources_preserved rcp_name (fun s r => rc_preserved o s r && N.eqb (rc_maxtok r) 0 && N.eqb (rc_tpf r) 0) (rc_resources k) d
-   | None => true
+   | None => negb (all_ok rc_ok (rc_resources k))
    end).
 
 Definition cds_check (k : resp_case cluster_pb clres) : bool * bool * bool * bool :=
@@ -403,7 +404,7 @@ Definition cds_check (k : resp_case cluster_pb clres) : bool * bool * bool * boo
    total_spec (all_ok (fun _ => true) (rc_resources k)) k,
    match rc_decoded k with
    | Some d => resources_preserved cl_name cluster_preserved (rc_resources k) d
-   | None => true
+   | None => negb (all_ok (fun _ => true) (rc_resources k))
    end).
 
 Definition eds_check (k : resp_case cla_pb (option epres)) : bool * bool * bool * bool :=
@@ -412,7 +413,7 @@ Definition eds_check (k : resp_case cla_pb (option epres)) : bool * bool * bool 
    total_spec (all_ok (fun _ => true) (rc_resources k)) k,
    match rc_decoded k with
    | Some d => resources_preserved cla_name (fun c r => cla_preserved (Some c) r) (rc_resources k) d
-   | None => true
+   | None => negb (all_ok (fun _ => true) (rc_resources k))
    end).
 
 Definition nds_check (k : resp_case nt_pb (list string)) : bool * bool * bool * bool :=
@@ -421,5 +422,5 @@ Definition nds_check (k : resp_case nt_pb (list string)) : bool * bool * bool * 
    total_spec (nds_ok (rc_resources k)) k,
    match rc_decoded k with
    | Some d => table_preserved (rc_resources k) d
-   | None => true
+   | None => negb (nds_ok (rc_resources k))
    end).
